@@ -2928,10 +2928,13 @@ def generate(pid: str, repo: str):
     # e.g. the heap-mode classes of boltons.cacheutils do not share a file with ThresholdCounter)
     mods = {(spec['module'], spec.get('gen_file')) for spec in srctie_specs.SPECS.get(pid, [])}
     by_mod = {}
-    for p in sorted(srctie_specs.SPECS):       # a module file holds the functions of every property using it
-        for spec in srctie_specs.SPECS[p]:
+    # a module file holds the functions of every property using it; two properties may list the same definition
+    # (same `lean_name`, their own `tie_theorem`): it is emitted once, and the infos carry the requested property's entry
+    for p in [pid] + [q for q in sorted(srctie_specs.SPECS) if q != pid]:
+        for spec in srctie_specs.SPECS.get(p, []):
+            group = by_mod.get((spec['module'], spec.get('gen_file')), [])
             if (spec['module'], spec.get('gen_file')) in mods \
-                    and not any(spec is x for x in by_mod.get((spec['module'], spec.get('gen_file')), [])):
+                    and not any(spec is x or spec['lean_name'] == x['lean_name'] for x in group):
                 by_mod.setdefault((spec['module'], spec.get('gen_file')), []).append(spec)
     files, infos = {}, []
     for module_name, gen in sorted(by_mod, key=lambda x: (x[0], x[1] or '')):
